@@ -72,6 +72,11 @@ class Env:
         return p
 
 
+def _later(resp, k, v):
+    resp.headers[k] = v
+    return resp
+
+
 def response_recipes():
     """(name, build(iface, env) -> app, n_intermediate_pieces or None)"""
     R = []
@@ -111,6 +116,17 @@ def response_recipes():
     add("PlainText(headers argument with CRLF)", lambda i, e: pkg(i).PlainTextResponse("h", 200, {"X-Trace": "abc\r\nSet-Cookie: admin=1"}), 0)
     add("PlainText(headers argument with NUL in a name)", lambda i, e: pkg(i).PlainTextResponse("h", 200, {"X-\x00Trace": "1"}), 0)
     add("Redirect(headers argument with LF)", lambda i, e: pkg(i).RedirectResponse("/x", 302, {"X-A": "1\nX-B: 2"}), 0)
+
+    # ... and every other control character (VT, ESC, US, DEL ...) in values, names and cookie attributes; TAB is legal in a value
+    for ci, c in enumerate("\x0b\x1b\x1f\x7f\x01"):
+        add("PlainText(headers argument with control character %d in a value)" % ci, lambda i, e, c=c: pkg(i).PlainTextResponse("h", 200, {"X-Trace": "a" + c + "b"}), 0)
+        add("PlainText(headers argument with control character %d in a name)" % ci, lambda i, e, c=c: pkg(i).PlainTextResponse("h", 200, {"X-" + c + "T": "1"}), 0)
+        add("PlainText(control character %d stored later)" % ci, lambda i, e, c=c: _later(pkg(i).PlainTextResponse("h"), "X-Late", "a" + c + "b"), 0)
+    add("PlainText(headers argument with TAB in a value)", lambda i, e: pkg(i).PlainTextResponse("h", 200, {"X-Trace": "a\tb"}), 0)
+    # hop-by-hop headers given by the caller (a WSGI application must not send them; PEP 3333)
+    for name in ("Connection", "Keep-Alive", "Transfer-Encoding", "TE", "Upgrade", "Trailers", "Proxy-Authenticate"):
+        add("PlainText(caller gives the hop-by-hop header %s)" % name, lambda i, e, name=name: pkg(i).PlainTextResponse("h", 200, {name: "x", "X-Ok": "1"}), 0)
+    add("Stream(caller gives Connection)", lambda i, e: pkg(i).StreamResponse(stream(i, [b"a", b"b"]), 200, {"Connection": "keep-alive"}), 2)
 
     def attr_cookie(i, e, **kw):
         r = pkg(i).PlainTextResponse("c")
